@@ -74,6 +74,7 @@ Proof.
   - apply ex_from_cstr_n; auto.
   - apply ex_to_bool; auto.
   - apply ex_char; auto.
+  - apply ex_prepend_own; auto.
 Qed.
 
 Lemma step_refines w o : Inv w ->
@@ -176,7 +177,7 @@ Definition target (o : op) : option nat :=
   | OAttach v _ _ _ | OAssign v _ | OClear v | OResize v _ _ | OPoke v _ _
   | OAppendS v _ | OAppendB v _ | OAppendC v _ | OPrependS v _ | OPrependB v _
   | OReplaceC v _ _ | OReplaceS v _ _ | OLower v | OUpper v | OTrim v _ | OPrintf v _ | OJoin v _ _
-  | OAppendOwn v _ _ | OPrintfSelf v _ _ | OPlusEqS v _ | OPlusEqC v _ | OPlusAssign v _ _ => Some v
+  | OAppendOwn v _ _ | OPrintfSelf v _ _ | OPlusEqS v _ | OPlusEqC v _ | OPlusAssign v _ _ | OPrependOwn v _ _ => Some v
   | _ => None
   end.
 
